@@ -30,7 +30,7 @@ tvars == <<reqs, roots, totals, l, fault, pubq>>
 Bad(reasons) == IF reasons = {} THEN TRUE ELSE TLCSet(2, TLCGet(2) \o <<[i |-> l, why |-> reasons]>>)
 SetOf(seq) == {seq[i] : i \in 1..Len(seq)}
 
-ZeroTotals == [arrivals |-> 0, replies |-> 0, bytes |-> 0, greased |-> 0, failing |-> 0, unroutable |-> 0, socks |-> {}]
+ZeroTotals == [arrivals |-> 0, replies |-> 0, bytes |-> 0, greased |-> 0, failing |-> 0, unroutable |-> 0, socks |-> {}, extra_ips |-> 0]
 \* the harness's client sockets are bound to 127.0.0.(1 + i % 200); the unroutable source is 127.0.0.1
 IpOf(sock) == IF sock = 9999 THEN 1 ELSE 1 + (sock % 200)
 
@@ -75,6 +75,11 @@ TNext ==
                      \cup (IF e.replies > 0 THEN {"reply_to_malformed"} ELSE {}))
               /\ totals' = [totals EXCEPT !.arrivals = @ + e.n, !.socks = @ \cup {5}]
               /\ UNCHANGED <<reqs, roots, fault, pubq>>
+         [] e.ev = "bulk_addrs" ->    \* one valid request from each of e.addrs further client addresses: every one answered
+              /\ Bad((IF e.panic THEN {"panic"} ELSE {}) \cup (IF e.wedged THEN {"wedged"} ELSE {})
+                     \cup (IF e.replies # e.n \/ e.n # e.addrs THEN {"no_reply_to_valid"} ELSE {}))
+              /\ totals' = [totals EXCEPT !.arrivals = @ + e.n, !.replies = @ + e.replies, !.bytes = @ + e.bytes, !.extra_ips = @ + e.addrs]
+              /\ UNCHANGED <<reqs, roots, fault, pubq>>
          [] e.ev = "publish" ->
               \* Server::send_client_stats (the status timer's step) on the REAL server; if e.drain, everything is then popped
               \* from its queue. With the per-client recorder a snapshot is pushed iff anything was recorded since the last
@@ -83,7 +88,7 @@ TNext ==
               LET expectPush == e.client_stats /\ totals.arrivals > 0
                   snap == [valid |-> totals.replies + totals.unroutable, invalid |-> totals.arrivals - totals.replies - totals.unroutable,
                            responses |-> totals.replies, bytes |-> totals.bytes, failed |-> totals.unroutable,
-                           entries |-> Cardinality({IpOf(x) : x \in totals.socks})]
+                           entries |-> Cardinality({IpOf(x) : x \in totals.socks}) + totals.extra_ips]
                   q1 == IF expectPush THEN (IF Len(pubq) >= e.qcap THEN Tail(pubq) ELSE pubq) \o <<snap>> ELSE pubq
                   Sum(f) == LET RECURSIVE S(_) S(k) == IF k = 0 THEN 0 ELSE q1[k][f] + S(k - 1) IN S(Len(q1))
               IN
